@@ -1,5 +1,6 @@
 """C16 - device identities decode faithfully (ListIdentity, Identity object through UCMM / Unconnected Send,
 broadcast discovery, encode/decode round trip)."""
+from vlib.bench import ScenarioDead
 from vlib import common, devices
 from vlib import reftarget as rt
 from vlib.bench import Bench
@@ -64,95 +65,98 @@ def run(ctx):
             res.dont_care("extra-keys")
 
     n = 1200 if quick else 20000
-    for sc in range(n):
-        if not ctx.mine(sc):
-            continue
-        b = Bench(rng)
-        # cycle through every table id so all known ids are exercised
-        front_id = devices.random_identity(rng, vend_ids, type_ids)
-        if sc < len(vend_ids) * 2:
-            front_id.vendor = vend_ids[(sc // 2) % len(vend_ids)]
-        if sc < len(type_ids) * 3:
-            front_id.product_type = type_ids[(sc // 3) % len(type_ids)]
-        front = rt.Device(front_id, rng, b.log)
-        routes = {}
-        mods = {}
-        for slot in rng.sample(range(0, 17), 5):
-            mods[slot] = rt.Device(devices.random_identity(rng, vend_ids, type_ids), rng, b.log)
-            routes[((1, slot),)] = mods[slot]
-        t = rt.RefTarget(rng, front=front, routes=routes, log=b.log)
-        b.set_target(t)
-        # --- CIPDriver.list_identity(path) (classmethod: open, ListIdentity, close)
-        st, got = b.call("list_identity", p.CIPDriver.list_identity, b.host)
-        compare("list_identity", got if st == "ok" else got, front_id, True)
-        if t.sessions or t.connections:
-            res.violation("list_identity:leaks-session", f"CIPDriver.list_identity left {len(t.sessions)} session(s) on the target", None)
-        drv = p.CIPDriver(f"{b.host}/bp/{sorted(mods)[0]}")
-        st, out = b.call("open", drv.open)
-        if st == "ok":
-            st, got = b.call("_list_identity", drv._list_identity)
-            compare("_list_identity", got, front_id, True)
-            for slot, m in sorted(mods.items()):
-                st, got = b.call("get_module_info", drv.get_module_info, slot)
-                compare("get_module_info", got, m.identity)
-            b.call("close", drv.close)
-        else:
-            res.violation("open-failed", f"open() -> {out!r:.200}", None)
-        # --- discovery over UDP with 0..5 replies
-        k = rng.choice([0, 1, 1, 2, 3, 5])
-        idents = [devices.random_identity(rng, vend_ids, type_ids) for _ in range(k)]
+    for sc in range(n):  # WRAPPED
+        try:
+            if not ctx.mine(sc):
+                continue
+            b = Bench(rng)
+            # cycle through every table id so all known ids are exercised
+            front_id = devices.random_identity(rng, vend_ids, type_ids)
+            if sc < len(vend_ids) * 2:
+                front_id.vendor = vend_ids[(sc // 2) % len(vend_ids)]
+            if sc < len(type_ids) * 3:
+                front_id.product_type = type_ids[(sc // 3) % len(type_ids)]
+            front = rt.Device(front_id, rng, b.log)
+            routes = {}
+            mods = {}
+            for slot in rng.sample(range(0, 17), 5):
+                mods[slot] = rt.Device(devices.random_identity(rng, vend_ids, type_ids), rng, b.log)
+                routes[((1, slot),)] = mods[slot]
+            t = rt.RefTarget(rng, front=front, routes=routes, log=b.log)
+            b.set_target(t)
+            # --- CIPDriver.list_identity(path) (classmethod: open, ListIdentity, close)
+            st, got = b.call("list_identity", p.CIPDriver.list_identity, b.host)
+            compare("list_identity", got if st == "ok" else got, front_id, True)
+            if t.sessions or t.connections:
+                res.violation("list_identity:leaks-session", f"CIPDriver.list_identity left {len(t.sessions)} session(s) on the target", None)
+            drv = p.CIPDriver(f"{b.host}/bp/{sorted(mods)[0]}")
+            st, out = b.call("open", drv.open)
+            if st == "ok":
+                st, got = b.call("_list_identity", drv._list_identity)
+                compare("_list_identity", got, front_id, True)
+                for slot, m in sorted(mods.items()):
+                    st, got = b.call("get_module_info", drv.get_module_info, slot)
+                    compare("get_module_info", got, m.identity)
+                b.call("close", drv.close)
+            else:
+                res.violation("open-failed", f"open() -> {out!r:.200}", None)
+            # --- discovery over UDP with 0..5 replies
+            k = rng.choice([0, 1, 1, 2, 3, 5])
+            idents = [devices.random_identity(rng, vend_ids, type_ids) for _ in range(k)]
 
-        def udp(data, addr, idents=idents):
-            from vlib import refencap as enc
-            try:
-                h = enc.parse_header(data)
-            except enc.EncapError:
-                return []
-            if h["command"] != 0x63 or addr[1] != 44818:
-                return []
-            return [enc.build_frame(0x63, 0, (1).to_bytes(2, "little") + i.list_identity_item(), context=h["context"]) for i in idents]
-        b.net.udp_handler = udp
-        req = p.packets.ListIdentityRequestPacket()
-        msg = req.build_request(None, 0, b"\x00" * 8, 0)
-        st, devs = b.call("_broadcast_discover", p.CIPDriver._broadcast_discover, None, msg, req)
-        res.ev()
-        if st != "ok" or not isinstance(devs, list) or len(devs) != k:
-            res.violation("discover:count", f"_broadcast_discover with {k} replying devices returned {devs!r:.200}", None)
-        else:
-            for got, idn in zip(devs, idents):
-                compare("_broadcast_discover", got, idn, True)
-        if sc % 5 == 0:
-            st, devs = b.call("discover", p.CIPDriver.discover)
+            def udp(data, addr, idents=idents):
+                from vlib import refencap as enc
+                try:
+                    h = enc.parse_header(data)
+                except enc.EncapError:
+                    return []
+                if h["command"] != 0x63 or addr[1] != 44818:
+                    return []
+                return [enc.build_frame(0x63, 0, (1).to_bytes(2, "little") + i.list_identity_item(), context=h["context"]) for i in idents]
+            b.net.udp_handler = udp
+            req = p.packets.ListIdentityRequestPacket()
+            msg = req.build_request(None, 0, b"\x00" * 8, 0)
+            st, devs = b.call("_broadcast_discover", p.CIPDriver._broadcast_discover, None, msg, req)
             res.ev()
             if st != "ok" or not isinstance(devs, list) or len(devs) != k:
-                res.violation("discover:count", f"discover() with {k} replying devices returned {devs!r:.200}", None)
+                res.violation("discover:count", f"_broadcast_discover with {k} replying devices returned {devs!r:.200}", None)
             else:
                 for got, idn in zip(devs, idents):
-                    compare("discover", got, idn, True)
-        # --- LogixDriver.get_plc_info: UCMM for Micro800, Unconnected Send otherwise
-        micro = rng.random() < 0.4
-        cid = devices.random_identity(rng, vend_ids, type_ids, micro800=micro)
-        ctl = devices.ControllerDevice(cid, rng, b.log)
-        t2 = rt.RefTarget(rng, front=ctl, routes={((1, 0),): ctl}, log=b.log)
-        b.set_target(t2)
-        ld = p.LogixDriver(b.host, init_tags=False)
-        st, out = b.call("open", ld.open)
-        if st == "ok" and out:
-            info = dict(ld.info)
-            compare("get_plc_info(open)", info, cid, extra_ok=("keyswitch", "name", "programs", "tasks", "modules"))
-            st, got = b.call("get_plc_info", ld.get_plc_info)
-            compare("get_plc_info", got, cid, extra_ok=("keyswitch",))
-            j = [e for e in ctl.journal if e["segs"][:1] == [("logical", "class", 1)]]
-            want_tr = "ucmm" if micro else "unconnected_send"
-            if not j or j[-1]["transport"] != want_tr:
-                res.violation("get_plc_info:transport", f"get_plc_info used {j[-1]['transport'] if j else None}, expected {want_tr} (micro800={micro})", None)
-            b.call("close", ld.close)
-        else:
-            res.ev()
-            res.violation("logix-open-failed", f"LogixDriver.open() -> {out!r:.200} with identity {cid.name!r} (micro800={micro})", {"identity": expected(cid)})
-        if sc < 3:
-            res.sample({"configured": expected(front_id, True), "list_identity": repr(got)[:300]})
-        b.close()
+                    compare("_broadcast_discover", got, idn, True)
+            if sc % 5 == 0:
+                st, devs = b.call("discover", p.CIPDriver.discover)
+                res.ev()
+                if st != "ok" or not isinstance(devs, list) or len(devs) != k:
+                    res.violation("discover:count", f"discover() with {k} replying devices returned {devs!r:.200}", None)
+                else:
+                    for got, idn in zip(devs, idents):
+                        compare("discover", got, idn, True)
+            # --- LogixDriver.get_plc_info: UCMM for Micro800, Unconnected Send otherwise
+            micro = rng.random() < 0.4
+            cid = devices.random_identity(rng, vend_ids, type_ids, micro800=micro)
+            ctl = devices.ControllerDevice(cid, rng, b.log)
+            t2 = rt.RefTarget(rng, front=ctl, routes={((1, 0),): ctl}, log=b.log)
+            b.set_target(t2)
+            ld = p.LogixDriver(b.host, init_tags=False)
+            st, out = b.call("open", ld.open)
+            if st == "ok" and out:
+                info = dict(ld.info)
+                compare("get_plc_info(open)", info, cid, extra_ok=("keyswitch", "name", "programs", "tasks", "modules"))
+                st, got = b.call("get_plc_info", ld.get_plc_info)
+                compare("get_plc_info", got, cid, extra_ok=("keyswitch",))
+                j = [e for e in ctl.journal if e["segs"][:1] == [("logical", "class", 1)]]
+                want_tr = "ucmm" if micro else "unconnected_send"
+                if not j or j[-1]["transport"] != want_tr:
+                    res.violation("get_plc_info:transport", f"get_plc_info used {j[-1]['transport'] if j else None}, expected {want_tr} (micro800={micro})", None)
+                b.call("close", ld.close)
+            else:
+                res.ev()
+                res.violation("logix-open-failed", f"LogixDriver.open() -> {out!r:.200} with identity {cid.name!r} (micro800={micro})", {"identity": expected(cid)})
+            if sc < 3:
+                res.sample({"configured": expected(front_id, True), "list_identity": repr(got)[:300]})
+            b.close()
+        except ScenarioDead:
+            continue
 
     # ---- encode / decode identity -----------------------------------------------------------------------------
     vnames = sorted(k for k in VENDORS if isinstance(k, str))
